@@ -12,6 +12,10 @@ EXPRESSION_PARTS = (
     'expr xor_expr and_expr shift_expr arith_expr term factor power atom_expr'
 ).split()
 
+# Other nodes where an inlined expression might bind weaker than the name it
+# replaces: `x if y else z`, `[*x]`, `[... for ... in x if y]`.
+_PARENTHESIZED_PARENTS = 'test star_expr comp_for sync_comp_for comp_if'.split()
+
 
 class ChangedFile:
     def __init__(self, inference_state, from_path, to_path,
@@ -222,6 +226,9 @@ def inline(inference_state, names):
         s = replace_code
         if rhs.type == 'testlist_star_expr' \
                 or tree_name.parent.type in EXPRESSION_PARTS \
+                or tree_name.parent.type in _PARENTHESIZED_PARENTS \
+                or tree_name.parent.type == 'dictorsetmaker' \
+                and tree_name.get_previous_sibling() == '**' \
                 or tree_name.parent.type == 'trailer' \
                 and tree_name.parent.get_next_sibling() is not None:
             s = '(' + replace_code + ')'
